@@ -15,6 +15,16 @@ use crate::d128::{_IDEC_flags, StatusFlags, RoundingMode};
 
 /// Decimal floating-point division
 pub (crate) fn bid128_div(x: &BID_UINT128, y: &BID_UINT128, rnd_mode: RoundingMode, pfpsf: &mut _IDEC_flags) -> BID_UINT128 {
+    // The underflow packers learn whether *this* operation is inexact from the inexact bit of the status
+    // word they are handed, so they must not see bits left over from earlier operations: work on a clear
+    // word and merge it into the caller's.
+    let mut fpsf: _IDEC_flags = StatusFlags::BID_EXACT_STATUS;
+    let res: BID_UINT128 = bid128_div_clear_status(x, y, rnd_mode, &mut fpsf);
+    *pfpsf |= fpsf;
+    res
+}
+
+fn bid128_div_clear_status(x: &BID_UINT128, y: &BID_UINT128, rnd_mode: RoundingMode, pfpsf: &mut _IDEC_flags) -> BID_UINT128 {
     let mut CA4: BID_UINT256;
     let mut CA4r: BID_UINT256 = Default::default();
     let P256: BID_UINT256;
